@@ -128,5 +128,10 @@ func classify(c arith.Case, e arith.Expect, st *core.Stats) {
 
 var one = ref.Pow10(0)
 
-func TestC09(t *testing.T)       { core.Run(t, "C09", gen, check) }
-func TestC09Replay(t *testing.T) { core.Replay(t, "C09", check) }
+func TestC09(t *testing.T)       { core.Run(t, "C09", gen, checkDiff) }
+func TestC09Replay(t *testing.T) { core.Replay(t, "C09", checkDiffAll) }
+
+// the model check followed by the differential comparison with Python's decimal module
+// (one case in 2 during the search, every case on replay)
+var checkDiff = arith.WithDifferential(check, arith.DiffOpts{Value: true, Flags: true}, 2)
+var checkDiffAll = arith.WithDifferential(check, arith.DiffOpts{Value: true, Flags: true}, 1)
